@@ -11,7 +11,7 @@ import (
 )
 
 // VrtPath is the import path the runtime is overlaid at.
-const VrtPath = "github.com/gotid/god/internal/vrt"
+const VrtPath = "github.com/gotid/god"
 
 var pkgMaps = map[string]map[string]string{
 	"sync":        nil, // nil = every member, same name
